@@ -456,6 +456,29 @@ func refDump(ref *c16Ref) string {
 	return strings.Join(ss, " ") + fmt.Sprintf(" now t=%d h=%d", ref.t, ref.h)
 }
 
+// fingerprint: what the oracle keeper answers on a state (store iteration AND point lookups).
+func (r *c16Run) fingerprint(ctx sdk.Context) string {
+	k := r.w.App.OracleKeeper
+	fs := []string{}
+	for _, f := range k.GetAllPriceFeeder(ctx) {
+		fs = append(fs, fmt.Sprintf("%s=%v", f.Feeder, f.IsActive))
+	}
+	sort.Strings(fs)
+	ai := []string{}
+	for _, a := range k.GetAllAssetInfo(ctx) {
+		ai = append(ai, a.Denom+">"+a.Display)
+	}
+	sort.Strings(ai)
+	p := k.GetParams(ctx)
+	// POINT lookups too (a keeper-side cache answers these, not the store iteration above)
+	pl := []string{}
+	for _, d := range []string{"uaaa", "unone"} {
+		info, found := k.GetAssetInfo(ctx, d)
+		pl = append(pl, fmt.Sprintf("%s:%v/%s/%s", d, found, info.Display, k.GetAssetPriceFromDenom(ctx, d)))
+	}
+	return fmt.Sprintf("prices[%s] feeders[%s] infos[%s] lookups[%s] expiry=%d life=%d", priceDump(r.w, ctx), strings.Join(fs, ","), strings.Join(ai, ","), strings.Join(pl, ","), p.PriceExpiryTime, p.LifeTimeInBlocks)
+}
+
 func (r *c16Run) dfs(ctx sdk.Context, ref *c16Ref, depth, maxDepth int, path []string, first int) {
 	if depth >= maxDepth {
 		r.st.Sequences++
@@ -470,27 +493,7 @@ func (r *c16Run) dfs(ctx sdk.Context, ref *c16Ref, depth, maxDepth int, path []s
 	}
 	// ISOLATION (see c14.go): the parent state must read the same through the keeper before and after every
 	// DISCARDED child branch
-	fpOf := func() string {
-		k := r.w.App.OracleKeeper
-		fs := []string{}
-		for _, f := range k.GetAllPriceFeeder(ctx) {
-			fs = append(fs, fmt.Sprintf("%s=%v", f.Feeder, f.IsActive))
-		}
-		sort.Strings(fs)
-		ai := []string{}
-		for _, a := range k.GetAllAssetInfo(ctx) {
-			ai = append(ai, a.Denom+">"+a.Display)
-		}
-		sort.Strings(ai)
-		p := k.GetParams(ctx)
-		// POINT lookups too (a keeper-side cache answers these, not the store iteration above)
-		pl := []string{}
-		for _, d := range []string{"uaaa", "unone"} {
-			info, found := k.GetAssetInfo(ctx, d)
-			pl = append(pl, fmt.Sprintf("%s:%v/%s/%s", d, found, info.Display, k.GetAssetPriceFromDenom(ctx, d)))
-		}
-		return fmt.Sprintf("prices[%s] feeders[%s] infos[%s] lookups[%s] expiry=%d life=%d", priceDump(r.w, ctx), strings.Join(fs, ","), strings.Join(ai, ","), strings.Join(pl, ","), p.PriceExpiryTime, p.LifeTimeInBlocks)
-	}
+	fpOf := func() string { return r.fingerprint(ctx) }
 	fp0 := fpOf()
 	last := -1
 	iso := func() {
@@ -570,12 +573,12 @@ func c16RunUnit(w *World, u c16Unit, deadline time.Time, fixed []string) *KStats
 				return &KStats{HarnessErr: "unknown op " + name}
 			}
 			if discard {
-				before := priceDump(r.w, ctx) + fmt.Sprint(r.w.App.OracleKeeper.GetAllPriceFeeder(ctx), r.w.App.OracleKeeper.GetParams(ctx))
+				before := r.fingerprint(ctx)
 				dc, _ := ctx.CacheContext()
 				keep := r.st.Findings
 				r.apply(dc, ref.clone(), *op, d, fixed[:d+1])
 				r.st.Findings = keep
-				if after := priceDump(r.w, ctx) + fmt.Sprint(r.w.App.OracleKeeper.GetAllPriceFeeder(ctx), r.w.App.OracleKeeper.GetParams(ctx)); after != before {
+				if after := r.fingerprint(ctx); after != before {
 					r.find(Finding{Clause: "discarded_branch_changed_what_the_parent_sees", Culprit: op.Kind, Disc: "", Detail: "before: " + before + "\nafter:  " + after}, fixed[:d+1])
 				}
 				continue
